@@ -1,22 +1,116 @@
-import Gbo.Driver.Run
-open Gbo
+import Gbo.Driver.Check
+open Gbo Gbo.Proto Gbo.Check
 
-partial def loop (hin : IO.FS.Stream) (hout : IO.FS.Stream) : IO Unit := do
+def stripNl (s : String) : String := (s.dropEndWhile (fun c => c == '\n' || c == '\r')).toString
+
+def exactResult (c : CaseSt) (k : Nat) : Option MPoly :=
+  match (c.runs[k]?).bind (·.req) with
+  | some rq =>
+    match Run.runBoolReq rq Arith.exact with
+    | .ok o => some o.result
+    | .error _ => none
+  | none => none
+
+/-- classification of a failed check: does the model under exact arithmetic satisfy it on the same
+    inputs, are the inputs degenerate (exact incidences), was the rounded run exact? -/
+def classify (c : CaseSt) (toks : List String) : String :=
+  let ks := referencedRuns toks
+  let ks := ks.filter (fun k => ((c.runs[k]?).bind (·.req)).isSome)
+  let exacts := ks.map (fun k => (k, exactResult c k))
+  let ov : Override := fun k => (exacts.lookup k).join
+  let allOk := exacts.all (fun (_, r) => r.isSome)
+  let isSweep := toks.head? == some "planar" || toks.head? == some "flags"
+  let rawOv : Nat → Option String := fun k =>
+    if !isSweep then none else
+    match (c.runs[k]?).bind (·.req) with
+    | some rq => some (Run.subdivAnswer Arith.exact rq.prec rq.op rq.cfg rq.a rq.b)
+    | none => none
+  let exactVerdict :=
+    if isSweep then (if (evalCheck c (fun _ => none) toks rawOv).startsWith "pass" then "pass" else "fail") else
+    if ks.isEmpty || !allOk then "na" else
+    (if (evalCheck c ov toks).startsWith "pass" then "pass" else "fail")
+  -- the tolerance of the check (0 on exact families) decides what counts as an incidence
+  let tol : Rat := (toks.filterMap parseRat?).head?.getD 0
+  let degenerate := ks.any (fun k => match (c.runs[k]?).bind (·.req) with
+    | some rq => hasIncidence rq.a rq.b (tol * 1000)
+    | none => false)
+  let exactRun := !isSweep && ks.all (fun k => match (c.runs[k]?).bind (·.req), (exacts.lookup k).join with
+    | some rq, some ex =>
+      (match Run.runBoolReq rq rq.ar with
+       | .ok o => showMPoly o.result == showMPoly ex
+       | .error _ => false)
+    | _, _ => false)
+  s!"exactmodel={exactVerdict} degenerate={showBool degenerate} exactrun={showBool exactRun}"
+
+partial def loop (hin hout : IO.FS.Stream) (c : CaseSt) : IO Unit := do
   let line ← hin.getLine
   if line.isEmpty then return ()
-  let line := (line.dropEndWhile (fun c => c == '\n' || c == '\r')).toString
-  if line.startsWith "RUN " then
-    let rest := (line.drop 4).toString
-    match rest.splitOn " " with
-    | k :: req =>
-      let ans := Run.answer (" ".intercalate req)
-      hout.putStrLn s!"MODEL {k} {ans}"
-    | [] => hout.putStrLn "MODEL ? BADREQ"
-  else if line.startsWith "CASE " || line.startsWith "END" then
+  let line := stripNl line
+  if line.startsWith "CASE " then
     hout.putStrLn line
-  loop hin hout
+    loop hin hout {}
+  else if line.startsWith "END" then
+    hout.putStrLn line
+    hout.flush
+    loop hin hout {}
+  else if line.startsWith "RUN " then
+    match ((line.drop 4).toString.splitOn " ") with
+    | k :: req =>
+      let reqS := " ".intercalate req
+      let ans := Run.answer reqS c.resolve
+      hout.putStrLn s!"MODEL {k} {ans}"
+      let c := match k.toNat?, req.head? with
+        | some kn, some "BOOL" =>
+          let toks := (reqS.splitOn " ").filter (· ≠ "") |>.toArray
+          match Run.parseBool c.resolve { toks := toks, pos := 1 } with
+          | some (rq, _) => setRun c kn (fun r => { r with req := some rq })
+          | none => c
+        | some kn, some "SUBDIV" =>
+          let toks := (reqS.splitOn " ").filter (· ≠ "") |>.toArray
+          let p : P Run.BoolReq := do
+            let (ar, prec) ← arith
+            let o ← op
+            let dbg ← bool
+            let budget ← nat
+            let a ← mpoly
+            let b ← mpoly
+            pure { ar := ar, prec := prec, op := o, cfg := { dbg := dbg, budget := budget }, pairing := "MM", a := a, b := b }
+          match p { toks := toks, pos := 1 } with
+          | some (rq, _) => setRun c kn (fun r => { r with req := some rq })
+          | none => c
+        | some kn, some "FILLQ" =>
+          let toks := (reqS.splitOn " ").filter (· ≠ "") |>.toArray
+          let p : P Run.BoolReq := do
+            let (ar, prec) ← arith
+            let o ← op
+            let a ← mpoly
+            let b ← mpoly
+            pure { ar := ar, prec := prec, op := o, cfg := {}, pairing := "MM", a := a, b := b }
+          match p { toks := toks, pos := 1 } with
+          | some (rq, _) => setRun c kn (fun r => { r with req := some rq })
+          | none => c
+        | _, _ => c
+      loop hin hout c
+    | [] => loop hin hout c
+  else if line.startsWith "IMPL " then
+    match ((line.drop 5).toString.splitOn " ") with
+    | k :: rest =>
+      let raw := " ".intercalate rest
+      let c := match k.toNat? with
+        | some kn => setRun c kn (fun r => { r with implRaw := raw, implOut := parseImplMP raw })
+        | none => c
+      loop hin hout c
+    | [] => loop hin hout c
+  else if line.startsWith "CHECK " then
+    let toks := ((line.drop 6).toString.splitOn " ").filter (· ≠ "")
+    let v := evalCheck c (fun _ => none) toks
+    let extra := if v.startsWith "fail" then " " ++ classify c toks else ""
+    hout.putStrLn s!"CHECKRES {c.nchecks} {v}{extra}"
+    loop hin hout { c with nchecks := c.nchecks + 1 }
+  else
+    loop hin hout c
 
 def main : IO Unit := do
   let hin ← IO.getStdin
   let hout ← IO.getStdout
-  loop hin hout
+  loop hin hout {}
